@@ -830,8 +830,8 @@ func (ex *Exec) visit(fr *frame, instr ssa.Instruction) continuation {
 		}
 		*addr = ex.zero(instr.Type().(*types.Pointer).Elem())
 	case *ssa.MakeSlice:
-		cp := ex.concreteInt(fr.get(instr.Cap), "make cap")
-		ln := ex.concreteInt(fr.get(instr.Len), "make len")
+		cp := ex.smallInt(fr.get(instr.Cap), "make cap")
+		ln := ex.smallInt(fr.get(instr.Len), "make len")
 		s := make([]value, cp)
 		et := instr.Type().Underlying().(*types.Slice).Elem()
 		for i := range s {
